@@ -31,6 +31,7 @@ type PropMeta struct {
 	ValidateN   int               `json:"validate_n"`
 	AllocBound  int               `json:"alloc_bound"`
 	AllocEventIsPanic bool        `json:"alloc_event_is_panic"`
+	NativeRace  bool              `json:"native_race"` // build the native replay binary with the race detector
 	SolverArgs  map[string][]string `json:"solver_args"`
 	TagSets     []string          `json:"tag_sets"`     // run the property once per tag set (C14)
 	Prefixes    []string          `json:"prefixes"`     // harness name prefixes (default VerifH_<ID>_)
@@ -200,7 +201,7 @@ func main() {
 				pk = hp[i]
 			}
 		}
-		nb, err := gosym.BuildNative(l, *repo, reldir, genDir, meta.Tags, pk)
+		nb, err := gosym.BuildNative(l, *repo, reldir, genDir, meta.Tags, pk, meta.NativeRace)
 		if err != nil {
 			return nil, err
 		}
@@ -437,6 +438,9 @@ func confirms(v *gosym.Violation, outcome string) bool {
 		return false
 	}
 	status, fails := parts[0], strings.Split(parts[1], ",")
+	if status == "race" {
+		return true // the race detector reported unsynchronised conflicting accesses
+	}
 	switch v.Kind {
 	case "panic":
 		return status == "panic" || status == "crash" || status == "timeout"
